@@ -80,8 +80,11 @@ func runHistory(c histCase) histObs {
 		e := repCfg
 		e.IncludeReportCreationTime = false
 		cfgs["noDate"] = e
+		// configurations written as struct literals that leave schema IRIs at their zero value
+		cfgs["emptyIris"] = config.ReportConfiguration{IncludeReportCreationTime: false}
+		cfgs["emptyLex"] = config.ReportConfiguration{IncludeReportCreationTime: true, ReportSchemaIri: altReportSchema}
 	}
-	cfgNames := []string{"", "alt", "altLex", "altRep", "noDate"}
+	cfgNames := []string{"", "alt", "altLex", "altRep", "noDate", "emptyIris", "emptyLex"}
 	stepCfg := func(i int) string {
 		if !c.VaryCfg {
 			return ""
